@@ -78,12 +78,17 @@ class Minimiser:
         return self.lane.call({'cmd': 'run', 'plan': plan, 'want_plan': False})
 
     def minimise(self, plan, key):
+        import inspect
         t0 = time.monotonic()
         improved = True
         best = plan
+        two = len(inspect.signature(self.engine.shrink).parameters) >= 2
+        last = self.run_plan(plan) if two else None      # gives the engine the switch trace actually taken
+        if two and ('harness_error' in last or not same_class(last, key)):
+            return plan
         while improved and self.runs < self.budget_runs and time.monotonic() - t0 < self.budget_s:
             improved = False
-            for cand in self.engine.shrink(best):
+            for cand in (self.engine.shrink(best, last) if two else self.engine.shrink(best)):
                 if self.runs >= self.budget_runs or time.monotonic() - t0 > self.budget_s:
                     break
                 res = self.run_plan(cand)
@@ -91,6 +96,7 @@ class Minimiser:
                     continue
                 if same_class(res, key):
                     best = cand
+                    last = res
                     improved = True
                     break
         return best
@@ -164,6 +170,7 @@ def explore(prop, tier, verif_seed, runs_override=None, budget_override=None, wo
     pool = lanes.LanePool(engine_name, verif_seed, workers=workers)
     cfg = dict(P['cfg'])
     cfg['tier'] = tier
+    cfg['corpus_seed'] = verif_seed
     jobs = [{'index': i, 'req': {'cmd': 'run', 'id': i, 'seed': core.run_seed(verif_seed, engine_name + json.dumps(P['cfg'], sort_keys=True), i), 'cfg': cfg}}
             for i in range(n_runs)]
     agg = {'runs': 0, 'skipped': 0, 'probes': {}, 'faults': {}, 'sets': {}, 'sigs': set(), 'digests': set(), 'steps': 0,
